@@ -919,6 +919,34 @@ func (cl *Cluster) CloseConns(name string, onlyData bool) int {
 	return len(victims)
 }
 
+// CloseOne closes (from the node side) the k-th open data connection of the node (k counts from 0, modulo their number).
+func (cl *Cluster) CloseOne(name string, k int) int {
+	cl.mu.Lock()
+	n := cl.byName[name]
+	if n == nil {
+		cl.mu.Unlock()
+		return 0
+	}
+	var open []*NodeConn
+	for _, nc := range n.Conns {
+		if !nc.Closed && !nc.PeerEOF && !nc.Admin {
+			open = append(open, nc)
+		}
+	}
+	if len(open) == 0 {
+		cl.mu.Unlock()
+		return 0
+	}
+	nc := open[k%len(open)]
+	nc.Closed = true
+	nc.Pending = nil
+	nc.rest = nil
+	cl.log.Add(Event{Ev: "bclose", N: n.Name, Conn: nc.Id})
+	cl.mu.Unlock()
+	nc.c.Close()
+	return 1
+}
+
 // SetDown takes a node off the network (its listener stops accepting, its connections are closed) or brings it back
 // on the same address.
 func (cl *Cluster) SetDown(name string, down bool) error {
